@@ -154,6 +154,46 @@ func vfC05CtxRes(ctx context.Context) string {
 	return "cancel"
 }
 
+// vfC05LowPrio: the documented "better alternative" rule (swarm_dial.go, doc comment of
+// filterLowPriorityAddresses), computed from the spelling of the addresses only: a /webtransport (or
+// draft /quic) address is dropped when a /quic-v1 address with the same IP and UDP port is known, a /ws
+// or /wss address when a plain /tcp address with the same IP and TCP port is known.
+func vfC05LowPrio(a ma.Multiaddr, all []ma.Multiaddr) bool {
+	has := func(x ma.Multiaddr, code int) bool { _, err := x.ValueForProtocol(code); return err == nil }
+	if has(a, ma.P_CIRCUIT) {
+		return false
+	}
+	tuple := func(x ma.Multiaddr, l4 int) string {
+		ip, err := x.ValueForProtocol(ma.P_IP4)
+		if err != nil {
+			if ip, err = x.ValueForProtocol(ma.P_IP6); err != nil {
+				return ""
+			}
+		}
+		port, err := x.ValueForProtocol(l4)
+		if err != nil {
+			return ""
+		}
+		return ip + "|" + port
+	}
+	isWS := func(x ma.Multiaddr) bool { return has(x, ma.P_WS) || has(x, ma.P_WSS) }
+	switch {
+	case has(a, ma.P_WEBTRANSPORT) || has(a, ma.P_QUIC):
+		for _, b := range all {
+			if !has(b, ma.P_CIRCUIT) && has(b, ma.P_QUIC_V1) && !has(b, ma.P_WEBTRANSPORT) && tuple(b, ma.P_UDP) == tuple(a, ma.P_UDP) {
+				return true
+			}
+		}
+	case isWS(a):
+		for _, b := range all {
+			if !has(b, ma.P_CIRCUIT) && has(b, ma.P_TCP) && !isWS(b) && tuple(b, ma.P_TCP) == tuple(a, ma.P_TCP) {
+				return true
+			}
+		}
+	}
+	return false
+}
+
 func vfC05Gen(seed int64, idx int) *vfC05Scenario {
 	rnd := rand.New(rand.NewSource(seed))
 	sc := &vfC05Scenario{Seed: seed, PerPeer: 1 + rnd.Intn(3), FDLimit: 1 + rnd.Intn(3)}
@@ -196,6 +236,19 @@ func vfC05Gen(seed int64, idx int) *vfC05Scenario {
 		{"/ip4/192.168.1.7/tcp/4001", false, true},
 		{"/ip4/9.9.9.9/tcp/4001/p2p/" + relayID + "/p2p-circuit", true, false},
 		{"/ip6/2001:db8::1/udp/4001/quic-v1", false, false},
+		// forms the default ranker treats specially (same-port webtransport after quic, webrtc-direct,
+		// secure websocket, private quic, a second relay)
+		{"/ip4/1.2.3.4/udp/4001/quic-v1/webtransport", false, false},
+		{"/ip4/1.2.3.4/udp/4002/webrtc-direct", false, false},
+		{"/ip4/1.2.3.4/tcp/443/tls/ws", false, true},
+		{"/ip4/1.2.3.4/tcp/4001/ws", false, true},
+		{"/ip6/2001:db8::1/tcp/443/tls/ws", false, true},
+		{"/ip4/192.168.1.7/udp/4001/quic-v1", false, false},
+		{"/ip6/2001:db8::2/udp/4001/quic-v1/webtransport", false, false},
+		{"/ip4/8.8.4.4/udp/4001/quic-v1/p2p/" + relayID + "/p2p-circuit", true, false},
+	}
+	if idx%3 != 0 {
+		na = 1 + rnd.Intn(7)
 	}
 	rnd.Shuffle(len(forms), func(i, j int) { forms[i], forms[j] = forms[j], forms[i] })
 	for i := 0; i < na; i++ {
@@ -242,26 +295,36 @@ func vfC05Execute(t *testing.T, sc *vfC05Scenario, tr *vfh.Trace) {
 	r := &vfC05Run{sc: sc, tr: tr, t0: time.Now(), byAddr: map[string]*vfC05Addr{}, attempt: map[string]int{},
 		conns: map[string]*vfStubConn{}, connID: map[*vfStubConn]string{}, local: local, remote: remote}
 	tcp := &vfC05Tpt{r: r, protos: []int{ma.P_TCP}, match: func(a ma.Multiaddr) bool { return mafmt.TCP.Matches(a) }}
-	quic := &vfC05Tpt{r: r, protos: []int{ma.P_QUIC_V1}, match: func(a ma.Multiaddr) bool {
-		_, err := a.ValueForProtocol(ma.P_QUIC_V1)
+	has := func(a ma.Multiaddr, code int) bool {
+		_, err := a.ValueForProtocol(code)
 		return err == nil
+	}
+	quic := &vfC05Tpt{r: r, protos: []int{ma.P_QUIC_V1}, match: func(a ma.Multiaddr) bool {
+		return has(a, ma.P_QUIC_V1) && !has(a, ma.P_WEBTRANSPORT)
 	}}
+	wt := &vfC05Tpt{r: r, protos: []int{ma.P_WEBTRANSPORT}, match: func(a ma.Multiaddr) bool { return has(a, ma.P_WEBTRANSPORT) }}
+	wrtc := &vfC05Tpt{r: r, protos: []int{ma.P_WEBRTC_DIRECT}, match: func(a ma.Multiaddr) bool { return has(a, ma.P_WEBRTC_DIRECT) }}
+	ws := &vfC05Tpt{r: r, protos: []int{ma.P_WS}, match: func(a ma.Multiaddr) bool { return has(a, ma.P_WS) || has(a, ma.P_WSS) }}
 	relay := &vfC05Tpt{r: r, protos: []int{ma.P_CIRCUIT}, proxy: true, match: func(a ma.Multiaddr) bool {
 		_, err := a.ValueForProtocol(ma.P_CIRCUIT)
 		return err == nil
 	}}
-	for _, tp := range []*vfC05Tpt{tcp, quic, relay} {
+	for _, tp := range []*vfC05Tpt{tcp, quic, wt, wrtc, ws, relay} {
 		if err := sw.AddTransport(tp); err != nil {
 			t.Fatal(err)
 		}
 	}
 	var all []ma.Multiaddr
 	var names []string
+	var all0 []ma.Multiaddr
+	for _, a := range sc.Addrs {
+		all0 = append(all0, a.Addr)
+	}
 	for _, a := range sc.Addrs {
 		r.byAddr[string(a.Addr.Bytes())] = a
 		all = append(all, a.Addr)
 		names = append(names, a.Name)
-		tr.Emit("addr", "a", a.Name, "relay", a.Relay, "fd", a.FD)
+		tr.Emit("addr", "a", a.Name, "relay", a.Relay, "fd", a.FD, "s", a.Addr.String(), "low", vfC05LowPrio(a.Addr, all0))
 	}
 	ps.AddAddrs(remote, all, peerstore.PermanentAddrTTL)
 	tr.Emit("config", "perpeer", sc.PerPeer, "fdlimit", sc.FDLimit, "template", sc.Template)
@@ -305,7 +368,10 @@ func vfC05Execute(t *testing.T, sc *vfC05Scenario, tr *vfh.Trace) {
 				r.mu.Unlock()
 				tr.Emit("dial_ret", "c", c.Name, "res", "conn", "conn", id, "open", !conn.IsClosed(),
 					"peer_ok", conn.RemotePeer() == remote, "proxy", stub != nil && stub.Limited, "t", r.now())
-			case ctx.Err() != nil && (errors.Is(err, context.Canceled) || errors.Is(err, context.DeadlineExceeded)):
+			// the caller's own context, or DialPeer's own 60 s timeout (the caller's context is then still
+		// alive); C05_Obs accepts a context-type return only with one of these justifications
+		case (ctx.Err() != nil && (errors.Is(err, context.Canceled) || errors.Is(err, context.DeadlineExceeded))) ||
+			(ctx.Err() == nil && err == context.DeadlineExceeded): // bare, not a DialError listing a job's deadline
 				tr.Emit("dial_ret", "c", c.Name, "res", "ctx", "dl", dl, "t", r.now())
 			default:
 				cause := "other"
